@@ -1,6 +1,8 @@
 import NimaVerif.Model.Edit
 /-! Helper lemmas about the edit model. -/
 namespace Nima
+-- name tokens are compared by spelling in this file (see `NameCmp` in Model/Edit.lean)
+attribute [local instance] NameCmp.spelled
 
 theorem splitScopeNpath_error (p : Text) (e : Err) (h : splitScopeNpath p = .error e) : e = .value := by
   unfold splitScopeNpath at h
